@@ -278,8 +278,10 @@ def v2_ctx(kind, impact):
     # the fee factors are per-pool configuration; with the "small" impact pool the pool charges other factors than the defaults (all four different)
     if impact == "small":
         gmx.set_v2_fees(m, dep_pos=0.0004, dep_neg=0.0009, wd_pos=0.0011, wd_neg=0.0025)
+        gmx.set_v2_impact(m, pos=6e-10, neg=3e-10)  # configured the wrong way round: the protocol caps the positive factor at the negative one
     else:
         gmx.set_v2_fees(m)
+        gmx.set_v2_impact(m)
     return ctx, gmx
 
 
